@@ -328,7 +328,7 @@ Definition expect_Channel_popInFlightMessage : list string :=
   ; "call c.inFlightMutex.Unlock"
   ; "return" ].
 
-(* timeout scan: exit lock; every popped message is re-queued unconditionally; the owner counter moves only if the owner is still attached *)
+(* timeout scan: exit lock; every popped message whose deadline (re-read after the pop: a TOUCH may have landed since the peek) has passed is re-queued, any other goes back in flight; the owner counter moves only if the owner is still attached *)
 Definition expect_Channel_processInFlightQueue : list string :=
   [ "call c.exitMutex.RLock"
   ; "defer c.exitMutex.RUnlock"
@@ -348,6 +348,11 @@ Definition expect_Channel_processInFlightQueue : list string :=
   ; "call c.popInFlightMessage"
   ; "if err != nil {"
   ; "goto exit"
+  ; "}"
+  ; "if msg.pri > t {"
+  ; "call c.pushInFlightMessage"
+  ; "call c.addToInFlightPQ"
+  ; "continue"
   ; "}"
   ; "call atomic.AddUint64"
   ; "call c.RLock"
